@@ -66,7 +66,12 @@ func openFileToReader(filename string, gunzip bool) (io.ReadCloser, error) {
 		zfile, err := gzip.NewReader(file)
 		if err != nil {
 			logger.Printf("Gunzip error for file %s: %v; Reading as plain file", filename, err)
-			baseFile.Seek(0, io.SeekStart) // Rewind, since it probably took a few bytes to figure out this wasn't a gzip file
+			// Rewind, since it probably took a few bytes to figure out this wasn't a gzip file
+			if _, err := baseFile.Seek(0, io.SeekStart); err != nil {
+				// Not seekable (eg. a pipe): the probed bytes are gone, so report rather than read a truncated input
+				baseFile.Close()
+				return nil, err
+			}
 		} else {
 			file = zfile
 		}
